@@ -8,7 +8,7 @@
 (* and validation continues, so one run reports every rejection.           *)
 (* The orchestrator (bin/check) attributes failed conjuncts to properties. *)
 (***************************************************************************)
-EXTENDS Arith, AlgRound, Order, Text, Conv, BigIntM, ErrDec, Roots, Transc, Json
+EXTENDS Arith, AlgArith, AlgNumDigits, Order, Text, Conv, BigIntM, ErrDec, Roots, Transc, Json
 T == ndJsonDeserialize("trace.ndjson")
 VARIABLE l
 
@@ -384,9 +384,25 @@ DriftRound(ev) ==
   LET a == AlgRound(ev.ctx, ev.x) IN
   ~(a.f = ev.res.f /\ (a.f = FIN => (a.c = ev.res.c /\ a.e = ev.res.e)) /\ BitSet(ev.fl) = a.fl)
 
+\* the same for the exact arithmetic entry points against AlgArith (operands at most 400 orders of magnitude apart)
+DriftArith(ev) ==
+  ev.k = "a" /\ ev.op \in {"add", "sub", "mul", "abs", "neg", "reduce", "cmp"} /\ ev.panic = "" /\ ~SysFlag(ev) /\ WFContext(ev.ctx)
+  /\ ev.x.f \in {FIN, INF} /\ ev.y.f \in {FIN, INF} /\ ev.x.e - ev.y.e \in -400..400 /\
+  LET same(a) == a.f = ev.res.f /\ (a.f # QNAN => a.n = ev.res.n) /\ (a.f = FIN => (a.c = ev.res.c /\ a.e = ev.res.e)) /\ BitSet(ev.fl) = a.fl
+  IN CASE ev.op \in {"add", "sub"} -> ~same(AlgAdd(ev.ctx, ev.x, ev.y, ev.op = "sub"))
+       [] ev.op = "mul" -> ~same(AlgMul(ev.ctx, ev.x, ev.y))
+       [] ev.op \in {"abs", "neg"} -> ~same(AlgUnary(ev.ctx, ev.x, ev.op))
+       [] ev.op = "reduce" -> LET r == AlgReduce(ev.ctx, ev.x) IN ~(same(r.o) /\ r.cnt = ev.cnt)
+       [] OTHER -> LET v == AlgCmp(ev.x, ev.y) IN
+                   ~(ev.res.f = FIN /\ ev.res.e = 0 /\ ev.fl = 0 /\ ev.res.c = (IF v = 0 THEN <<>> ELSE One) /\ (v # 0 => ev.res.n = (v < 0)))
+
+\* table.go NumDigits against its transcription AlgNumDigits (values up to 240 digits)
+DriftNumDigits(ev) ==
+  ev.k = "nd" /\ ev.panic = "" /\ ev.p10 < 0 /\ Len(ev.b) <= 80 /\ NumDigitsAlg(ev.b) # ev.nd
+
 Init == l = 0
 Next == l < Len(T) /\ l' = l + 1
-Inv == l = 0 \/ (/\ (DriftRound(T[l]) => PrintT(<<"DRIFT", l>>))
+Inv == l = 0 \/ (/\ ((DriftRound(T[l]) \/ DriftArith(T[l]) \/ DriftNumDigits(T[l])) => PrintT(<<"DRIFT", l>>))
                   /\ LET v == Verdict(T[l]) IN (v = {} \/ PrintT(<<"VIOL", l, v>>)))
 Done == PrintT(<<"VALIDATED", Len(T)>>)
 =============================================================================
